@@ -5,29 +5,41 @@ From PLS Require Import Spec.ImportsSpec Proofs.Basics Proofs.ScanImports.
 (** ** transitive discovery *)
 (** On ANY tree and ANY import graph — chains, diamonds, cycles; star imports, explicit
     imports, pytest_plugins entries; relative or absolute, modules or packages, resolved
-    upward, in site-packages or in editable roots — a converged import scan has analysed
-    exactly the files it started from and everything reachable from them.
-    ([import_scan_opt = Some]: the model did not run out of fuel; the check sees that on
-    every tree.  The second hypothesis holds after phases 2 and 3: they only analyse test /
-    conftest files and files below site-packages, editable roots or marked as plugins.) *)
+    upward, in site-packages or in editable roots — the import scan analyses exactly the
+    files it started from and everything reachable from them.
+    (The hypotheses hold after phases 2 and 3: they only analyse existing files that are
+    test / conftest files, lie below site-packages or an editable root, or are marked as
+    plugin files; and every file they mark they also analyse.) *)
 Theorem C14_import_scan_reaches_closure :
   forall fd sp dists pths st st',
     (forall q, In q (ss_cached st) -> file_exists fd q = true) ->
     (forall q, In q (ss_cached st) -> In q (seed_files fd sp dists pths st)) ->
+    (forall q, In q (ss_plugin st) -> In q (ss_cached st)) ->
     import_scan_opt fd sp dists pths st = Some st' ->
     forall q, In q (ss_cached st') <-> reach fd sp dists pths (seed_files fd sp dists pths st) q.
 Proof. exact import_scan_reaches_closure. Qed.
 Print Assumptions C14_import_scan_reaches_closure.
 
-(** Plugin status only travels from a plugin file along star imports and pytest_plugins
-    entries: whatever the scan marks was a plugin file before or is reachable from one
-    through such edges (an explicit import never hands it on). *)
-Theorem C14_plugin_marks_sound :
+(** ... and the scan always converges: every round that goes on analyses a file that was not
+    analysed, or walks again a file that was not a plugin file before; the fuel of the model
+    (two more than twice the number of files) is never exhausted. *)
+Theorem C14_import_scan_converges :
+  forall fd sp dists pths st, import_scan_opt fd sp dists pths st <> None.
+Proof. exact import_scan_converges. Qed.
+Print Assumptions C14_import_scan_converges.
+
+(** Plugin status: the scan marks EXACTLY the plugin files it started from and everything
+    reachable from them through star imports and pytest_plugins entries (an explicit import
+    never hands it on) — in whatever order the files of a round are visited. *)
+Theorem C14_plugin_marks_exact :
   forall fd sp dists pths st st',
+    (forall q, In q (ss_cached st) -> file_exists fd q = true) ->
+    (forall q, In q (ss_cached st) -> In q (seed_files fd sp dists pths st)) ->
+    (forall q, In q (ss_plugin st) -> In q (ss_cached st)) ->
     import_scan_opt fd sp dists pths st = Some st' ->
-    forall q, In q (ss_plugin st') -> plugin_reach fd sp dists pths (ss_plugin st) q.
-Proof. exact import_scan_plugin_sound. Qed.
-Print Assumptions C14_plugin_marks_sound.
+    forall q, In q (ss_plugin st') <-> plugin_reach fd sp dists pths (ss_plugin st) q.
+Proof. exact import_scan_plugin_closure. Qed.
+Print Assumptions C14_plugin_marks_exact.
 
 (** Resolution of an import only looks at the tree (so the three walkers — scanner,
     resolver, completion — see the same graph), and only ever names files that exist. *)
@@ -95,9 +107,27 @@ Example C14_example :
   = Some [["conftest.py"; "ws"]; ["h1.py"; "ws"]; ["h2.py"; "ws"]; ["h3.py"; "ws"]].
 Proof. vm_compute. reflexivity. Qed.
 
+(** what repair 92543e7 changed: a library a conftest imports directly and a plugin imports
+    through a longer chain used to be walked before it was marked, so what IT star-imports
+    never became a plugin file (in this visiting order; in another it did) *)
+Definition old_fd : list (path * facts) :=
+  [(["conftest.py"; "t"], ex_facts [mk_edge 0 ["lib"] Star]);
+   (["plugin.py"; "t"], ex_facts [mk_edge 1 ["l1"] Star]);
+   (["l1.py"; "t"], ex_facts [mk_edge 1 ["lib"] Star]);
+   (["lib.py"; "t"], ex_facts [mk_edge 1 ["lib2"] Star]);
+   (["lib2.py"; "t"], ex_facts [])].
+Definition old_st : sst := mk_sst [["conftest.py"; "t"]; ["plugin.py"; "t"]] [["plugin.py"; "t"]].
+Lemma C14_old_plugin_marks_refuted :
+  option_map (@ss_plugin) (import_scan_old old_fd None [] [] old_st)
+  = Some [["plugin.py"; "t"]; ["l1.py"; "t"]; ["lib.py"; "t"]]
+  /\ option_map (@ss_plugin) (import_scan_opt old_fd None [] [] old_st)
+     = Some [["plugin.py"; "t"]; ["l1.py"; "t"]; ["lib.py"; "t"]; ["lib2.py"; "t"]].
+Proof. split; vm_compute; reflexivity. Qed.
+
 Check C14_import_scan_reaches_closure :
   forall fd sp dists pths st st',
     (forall q, In q (ss_cached st) -> file_exists fd q = true) ->
     (forall q, In q (ss_cached st) -> In q (seed_files fd sp dists pths st)) ->
+    (forall q, In q (ss_plugin st) -> In q (ss_cached st)) ->
     import_scan_opt fd sp dists pths st = Some st' ->
     forall q, In q (ss_cached st') <-> reach fd sp dists pths (seed_files fd sp dists pths st) q.
